@@ -115,9 +115,15 @@ def cmpState (gm : Graph) (o : Obs) : Option String :=
       else if gm.freePkgs.reverse != o.freePkgs then some s!"free packages model={gm.freePkgs.reverse} impl={o.freePkgs}"
       else none
 
-def judgeSteps (t : Tables) : Nat → Nat → Graph → Option Graph → P String
-  | 0, _, _, _ => pure "ok"
-  | n + 1, k, gm, gi => do
+/-- package ids mentioned by a call -/
+def opPkgIds : Op → List PkgId
+  | .unregister id | .instantiate id => [id]
+  | _ => []
+
+/-- `dead` = package ids whose `unregister_package` succeeded earlier in this history -/
+def judgeSteps (t : Tables) : Nat → Nat → Graph → Option Graph → List PkgId → P String
+  | 0, _, _, _, _ => pure "ok"
+  | n + 1, k, gm, gi, dead => do
     let op ← pOp t
     let res ← pRes t
     let flag ← nat
@@ -136,8 +142,27 @@ def judgeSteps (t : Tables) : Nat → Nat → Graph → Option Graph → P Strin
     | .out io =>
       let (gm', mo) := step ctx gm op
       let obs ← if flag == 1 then (do let o ← pObs t; pure (some o)) else pure none
+      -- SPEC: an unregistered package id is never accepted again, and never handed out again
+      let staleVerdict : Option String :=
+        if (opPkgIds op).any (fun id => dead.contains id) then
+          some "a package id whose unregistration succeeded earlier was accepted"
+        else match io with
+          | .ok (.pkg id) => if dead.contains id then some "register_package handed out an unregistered id again" else none
+          | _ => none
+      -- SPEC: the result is the documented one for the state the call was applied to
+      -- (`errors_documented`: the model's outcome on the implementation's own previous state)
+      let docVerdict : Option String :=
+        match gi with
+        | none => none
+        | some g =>
+          match (step ctx g op).2, io with
+          | .ok _, .ok _ => none
+          | .panic _, _ => none          -- identifiers not live: no requirement
+          | doc, r => if doc != r then
+              some s!"result is not the documented one for the state: impl={showOutcome r} documented={showOutcome doc}"
+            else none
       -- SPEC on the reported state
-      let specVerdict : Option String :=
+      let stateVerdict : Option String :=
         match obs with
         | none => none
         | some o =>
@@ -154,23 +179,26 @@ def judgeSteps (t : Tables) : Nat → Nat → Graph → Option Graph → P Strin
                 else match queriesOf t g' o.bound with
                   | .error e => some s!"query specification not evaluable on the reported state: {e}"
                   | .ok m => (cmpQueries q m).map (fun d => "queries do not reflect the reported state: " ++ d)
-      match specVerdict with
+      match staleVerdict.orElse (fun _ => docVerdict.orElse (fun _ => stateVerdict)) with
       | some v => pure s!"SPEC\tstep {k} {showOp op}: {v}"
       | none =>
         if mo != io then pure s!"MODEL\tstep {k}: {showOp op} impl={showOutcome io} model={showOutcome mo}"
         else
+          let dead' := match op, io with
+            | .unregister id, .ok _ => id :: dead
+            | _, _ => dead
           match obs with
-          | none => judgeSteps t n (k + 1) gm' none
+          | none => judgeSteps t n (k + 1) gm' none dead'
           | some o =>
             match cmpState gm' o with
             | some d => pure s!"MODEL\tstep {k} {showOp op}: {d}"
-            | none => judgeSteps t n (k + 1) gm' (some o.toGraph)
+            | none => judgeSteps t n (k + 1) gm' (some o.toGraph) dead'
 
 def judgeSeq : P String := do
   let _ops ← tok
   let t ← pTables
   let n ← nat
-  judgeSteps t n 0 {} none
+  judgeSteps t n 0 {} (some {}) []
 
 /-- keep the TAB after the verdict class, flatten the rest -/
 def flat' (v : String) : String :=
